@@ -25,6 +25,9 @@ EXPLANATION = (
     "multiply the matching spin block. The free-projection typestate (overlap == calc_overlap * norms) "
     "is proved inductively over the step and block scans. "
     "CAP-1 on _apply_trotprop_det as in C04. "
+    "PAIR-1 (energy zero): on every path from the walkers stored by propagate_free down to "
+    "ham_data['ene0'] the symbolic multipliers / divisors (per-sector electron counts) are those met on "
+    "the way to ham_data['h0'] -- ene0 is scaled exactly like the constant it offsets. "
 )
 NOT_DECIDED = (
     "the field average, the O(dt^2) error, the Taylor remainder and the values of mf_shifts_fp / "
